@@ -46,13 +46,10 @@ theorem yang_encode_roundtrip_fails_cr :
 /-- the quoting flag `get_argument` reports -/
 def quoteFlag (flags : Nat) : Nat := if flagSingleQuoted flags then LYS_SINGLEQUOTED else LYS_DOUBLEQUOTED
 
-/-- The texts `ypr_text` prints faithfully under `flags`:
-    * single-quoted: no newline (the printer indents continuation lines *inside* the quotes, F83);
-    * double-quoted: no CR (F82), no blank immediately before a newline (F5) and, in a single-line statement, no blank
-      immediately after a newline (F35). -/
+/-- The texts `ypr_text` prints faithfully under `flags`: every single-quoted text; every double-quoted text without
+    CR (F82: the double-quoted form has no escape for CR and libyang's lexer rejects a bare one). -/
 def TextOk (flags : Nat) (s : Bytes) : Prop :=
-  if flagSingleQuoted flags then 10 ∉ s
-  else 13 ∉ s ∧ ¬ [32, 10] <:+: s ∧ (flagSingleLine flags = true → ¬ [10, 32] <:+: s)
+  if flagSingleQuoted flags then True else 13 ∉ s
 
 instance (flags : Nat) (s : Bytes) : Decidable (TextOk flags s) := by
   unfold TextOk; exact inferInstance
@@ -60,96 +57,57 @@ instance (flags : Nat) (s : Bytes) : Decidable (TextOk flags s) := by
 /-- `ypr_text l flags name s` is `indent ++ name ++ printTextArg …` (by definition of the model): the theorems below
     are about the part after the name, read by `get_argument` with the lexer's column counter after the keyword. -/
 theorem printText_eq (fmt : Bool) (level flags : Nat) (name s : Bytes) :
-    printText fmt level flags name s = indentOf fmt level ++ name ++ printTextArg fmt level flags s := rfl
+    printText fmt level flags name s = indentOf fmt level ++ name ++ printTextArg fmt level flags name.length s := rfl
 
-/-- **Partial round trip of `ypr_text`.**  For every formatting mode, indentation level, flag set and valid text `s`
-    with `TextOk flags s`, `get_argument` applied to what `ypr_text` printed after the statement name returns exactly
-    `s`, with the quoting style the printer chose, and stops in front of the rest of the input. -/
-theorem yang_text_roundtrip_partial (fmt : Bool) (level flags ind k : Nat) (s rest : Bytes)
+/-- **Round trip of `ypr_text`** (after the repair of F5, F35 and F83).  For every formatting mode, indentation level,
+    flag set, statement name and valid text `s` — without CR if it is printed in double quotes —, `get_argument` applied
+    to what `ypr_text` printed after the statement name returns exactly `s`, with the quoting style the printer chose,
+    and stops in front of the rest of the input.  In a single-line statement the lexer's column counter after the
+    keyword must be the true column (it is, for every YANG keyword). -/
+theorem yang_text_roundtrip_partial (fmt : Bool) (level flags nameLen ind k : Nat) (s rest : Bytes)
     (hs : isYangText s = true) (hok : TextOk flags s)
-    (hind : (indentOf fmt level).length ≤ ind) (hr : RestOk rest) :
-    ∃ ind', getArgument false ind (printTextArg fmt level flags s ++ (spaces k ++ rest)) =
+    (hind : flagSingleLine flags = true → ind = (indentOf fmt level).length + nameLen) (hr : RestOk rest) :
+    ∃ ind', getArgument false ind (printTextArg fmt level flags nameLen s ++ (spaces k ++ rest)) =
       .ok { word := some s, flags := quoteFlag flags, ind := ind', rest := rest } := by
   unfold TextOk at hok
   unfold quoteFlag
   cases hq : flagSingleQuoted flags with
   | true =>
     simp only [hq, if_true] at hok ⊢
-    exact text_sq_getArgument false fmt level flags ind s rest hq (ychars_of_isYangText s hs) hok hr k
+    exact text_sq_getArgument false fmt level flags nameLen ind s rest hq (ychars_of_isYangText s hs) hr k
   | false =>
     simp only [hq, Bool.false_eq_true, if_false] at hok ⊢
-    exact text_dq_getArgument false fmt level flags ind s rest hq (ychars_of_isYangText s hs) hok.1
-      (noSpNl_of_not_infix s hok.2.1) (fun h => noNlSp_of_not_infix s (hok.2.2 h)) (fun _ => hind) hr k
+    exact text_dq_getArgument false fmt level flags nameLen ind s rest hq (ychars_of_isYangText s hs) hok hind hr k
 
--- non-vacuity: a multi-line description (block style, level 2) with quotes, a tab, indented continuation lines
-example : ∃ ind', getArgument false 15 (printTextArg true 2 0 [97, 34, 10, 32, 32, 98, 9, 10, 10, 0xc3, 0xa9, 39] ++ (spaces 0 ++ [59])) =
-    .ok { word := some [97, 34, 10, 32, 32, 98, 9, 10, 10, 0xc3, 0xa9, 39], flags := LYS_DOUBLEQUOTED, ind := ind', rest := [59] } :=
-  yang_text_roundtrip_partial true 2 0 15 0 _ [59] (by decide) (by decide) (by decide) (by decide)
+-- non-vacuity: a multi-line description (block style, level 2) with quotes, a tab, indented continuation lines and a
+-- line that ends in a blank (the former F5 witness shape)
+example : ∃ ind', getArgument false 15 (printTextArg true 2 0 11 [97, 34, 32, 10, 32, 32, 98, 9, 10, 10, 0xc3, 0xa9, 39] ++ (spaces 0 ++ [59])) =
+    .ok { word := some [97, 34, 32, 10, 32, 32, 98, 9, 10, 10, 0xc3, 0xa9, 39], flags := LYS_DOUBLEQUOTED, ind := ind', rest := [59] } :=
+  yang_text_roundtrip_partial true 2 0 11 15 0 _ [59] (by decide) (by decide) (by decide) (by decide)
 
--- non-vacuity: a single-line `default` with a continuation line, and a single-quoted text with quotes inside
-example : ∃ ind', getArgument false 9 (printTextArg true 1 1 [97, 10, 98, 32] ++ (spaces 0 ++ [59])) =
-    .ok { word := some [97, 10, 98, 32], flags := LYS_DOUBLEQUOTED, ind := ind', rest := [59] } :=
-  yang_text_roundtrip_partial true 1 1 9 0 _ [59] (by decide) (by decide) (by decide) (by decide)
+-- the former F35 witness: `default "a<LF>  b"` at level 1 (keyword of 7 bytes read at column 2: ind = 9)
+example : ∃ ind', getArgument false 9 (printTextArg true 1 1 7 [97, 10, 32, 32, 98] ++ (spaces 0 ++ [59])) =
+    .ok { word := some [97, 10, 32, 32, 98], flags := LYS_DOUBLEQUOTED, ind := ind', rest := [59] } :=
+  yang_text_roundtrip_partial true 1 1 7 9 0 _ [59] (by decide) (by decide) (by decide) (by decide)
 
--- (followed by ` {`: one blank, then the brace)
-example : ∃ ind', getArgument false 9 (printTextArg true 1 3 [105, 116, 39, 39, 115, 13, 92] ++ (spaces 1 ++ [123])) =
+-- the former F83 witness: `pattern 'a<LF>b'`, and a single-quoted text with quotes and CR inside, followed by ` {`
+example : ∃ ind', getArgument false 9 (printTextArg true 1 3 7 [97, 10, 98] ++ (spaces 0 ++ [59])) =
+    .ok { word := some [97, 10, 98], flags := LYS_SINGLEQUOTED, ind := ind', rest := [59] } :=
+  yang_text_roundtrip_partial true 1 3 7 9 0 _ [59] (by decide) (by decide) (by decide) (by decide)
+
+example : ∃ ind', getArgument false 9 (printTextArg true 1 3 7 [105, 116, 39, 39, 115, 13, 92] ++ (spaces 1 ++ [123])) =
     .ok { word := some [105, 116, 39, 39, 115, 13, 92], flags := LYS_SINGLEQUOTED, ind := ind', rest := [123] } :=
-  yang_text_roundtrip_partial true 1 3 9 1 _ [123] (by decide) (by decide) (by decide) (by decide)
+  yang_text_roundtrip_partial true 1 3 7 9 1 _ [123] (by decide) (by decide) (by decide) (by decide)
 
-/-- The full-strength statement of the property: every valid text round-trips through `ypr_text`. -/
-def YangTextRoundtrip : Prop :=
-  ∀ (fmt : Bool) (level flags ind : Nat) (s rest : Bytes), isYangText s = true →
-    (indentOf fmt level).length ≤ ind → RestOk rest →
-    ∃ ind', getArgument false ind (printTextArg fmt level flags s ++ rest) =
-      .ok { word := some s, flags := quoteFlag flags, ind := ind', rest := rest }
-
-/-- F5: `description "a <LF>b"` (block style): the blank before the newline is printed literally and stripped by
-    the lexer — the text comes back as `a<LF>b`. -/
-theorem yang_text_roundtrip_fails_F5 : ¬ YangTextRoundtrip := by
-  intro h
-  obtain ⟨ind', e⟩ := h true 0 0 0 [97, 32, 10, 98] [59] (by decide) (by decide) (by decide)
-  have : getArgument false 0 (printTextArg true 0 0 [97, 32, 10, 98] ++ [59]) =
-      .ok { word := some [97, 10, 98], flags := 512, ind := 5, rest := [59] } := by rfl
-  rw [this] at e
-  simp at e
-
-/-- F35: also when no line ends in a blank and there is no CR: `default "a<LF>  b"` at level 1 (single-line
-    statement, keyword read at column 9): the two leading blanks of the continuation line are stripped. -/
-theorem yang_text_roundtrip_fails_F35 :
-    ¬ ∀ (fmt : Bool) (level flags ind : Nat) (s rest : Bytes), isYangText s = true → 13 ∉ s → ¬ [32, 10] <:+: s →
-      flagSingleQuoted flags = false → (indentOf fmt level).length ≤ ind → RestOk rest →
-      ∃ ind', getArgument false ind (printTextArg fmt level flags s ++ rest) =
-        .ok { word := some s, flags := quoteFlag flags, ind := ind', rest := rest } := by
-  intro h
-  obtain ⟨ind', e⟩ := h true 1 1 9 [97, 10, 32, 32, 98] [59] (by decide) (by decide) (by decide) (by decide) (by decide) (by decide)
-  have : getArgument false 9 (printTextArg true 1 1 [97, 10, 32, 32, 98] ++ [59]) =
-      .ok { word := some [97, 10, 98], flags := 512, ind := 7, rest := [59] } := by rfl
-  rw [this] at e
-  simp at e
-
-/-- F82: a CR in a double-quoted text (no blanks around newlines at all): the lexer rejects its own printer's output. -/
+/-- F82 remains: a CR in a double-quoted text: the lexer rejects its own printer's output. -/
 theorem yang_text_roundtrip_fails_F50 :
-    ¬ ∀ (fmt : Bool) (level flags ind : Nat) (s rest : Bytes), isYangText s = true → ¬ [32, 10] <:+: s → ¬ [10, 32] <:+: s →
-      flagSingleQuoted flags = false → (indentOf fmt level).length ≤ ind → RestOk rest →
-      ∃ ind', getArgument false ind (printTextArg fmt level flags s ++ rest) =
+    ¬ ∀ (fmt : Bool) (level flags nameLen ind : Nat) (s rest : Bytes), isYangText s = true →
+      flagSingleQuoted flags = false → (flagSingleLine flags = true → ind = (indentOf fmt level).length + nameLen) → RestOk rest →
+      ∃ ind', getArgument false ind (printTextArg fmt level flags nameLen s ++ rest) =
         .ok { word := some s, flags := quoteFlag flags, ind := ind', rest := rest } := by
   intro h
-  obtain ⟨ind', e⟩ := h true 1 1 9 [97, 13, 98] [59] (by decide) (by decide) (by decide) (by decide) (by decide) (by decide)
-  have : getArgument false 9 (printTextArg true 1 1 [97, 13, 98] ++ [59]) = .error .inChar := by rfl
-  rw [this] at e
-  simp at e
-
-/-- F83: a single-quoted text with a newline (`pattern 'a<LF>b'`): the continuation indentation is printed inside
-    the quotes and becomes part of the string. -/
-theorem yang_text_roundtrip_fails_F51 :
-    ¬ ∀ (fmt : Bool) (level flags ind : Nat) (s rest : Bytes), isYangText s = true → 13 ∉ s → ¬ [32, 10] <:+: s → ¬ [10, 32] <:+: s →
-      (indentOf fmt level).length ≤ ind → RestOk rest →
-      ∃ ind', getArgument false ind (printTextArg fmt level flags s ++ rest) =
-        .ok { word := some s, flags := quoteFlag flags, ind := ind', rest := rest } := by
-  intro h
-  obtain ⟨ind', e⟩ := h true 1 3 9 [97, 10, 98] [59] (by decide) (by decide) (by decide) (by decide) (by decide) (by decide)
-  have : getArgument false 9 (printTextArg true 1 3 [97, 10, 98] ++ [59]) =
-      .ok { word := some [97, 10, 32, 32, 32, 98], flags := 256, ind := 5, rest := [59] } := by rfl
+  obtain ⟨ind', e⟩ := h true 1 1 7 9 [97, 13, 98] [59] (by decide) (by decide) (by decide) (by decide)
+  have : getArgument false 9 (printTextArg true 1 1 7 [97, 13, 98] ++ [59]) = .error .inChar := by rfl
   rw [this] at e
   simp at e
 
@@ -158,8 +116,7 @@ theorem yang_text_roundtrip_fails_F51 :
 `WfStmts ss` (LemmasTree): every keyword lexes as itself (`KwOk`, and `KwBareOk` where `;` follows it directly: a
 YANG keyword without argument must be `input`/`output`, the printer writes `leaf;` and `get_keyword` wants a separator
 after `leaf`); every argument is absent, or unquoted and able to stand without quotes (`UnquotedOk`), or double-quoted
-without CR and without a blank before a newline (F82, F5), or single-quoted without a newline (F83).  Extension-instance
-substatements are always printed in block style, so F35 does not occur here. -/
+without CR (F82), or single-quoted. -/
 
 /-- The statements `ss` (with all their substatements) printed by `yprp_stmt` at any level inside a block, read by the
     substatement loop of `parse_ext_substmt` with enough fuel, come back as exactly `ss` — keywords, arguments, quoting
@@ -226,10 +183,10 @@ def exampleTree : List Stmt :=
      .mk [117, 110, 105, 116, 115] (some [105, 116, 39, 39, 115]) LYS_SINGLEQUOTED []]]
 
 theorem exampleTree_wf : WfStmts exampleTree := by
-  refine ⟨⟨kwok_ex, Or.inr (Or.inl ⟨rfl, by decide, by decide, by decide⟩), ?_⟩, trivial⟩
+  refine ⟨⟨kwok_ex, Or.inr (Or.inl ⟨rfl, by decide, by decide⟩), ?_⟩, trivial⟩
   refine ⟨⟨kwok_type, Or.inl ⟨rfl, ⟨by decide, by decide, by decide, by decide⟩⟩, trivial⟩, ?_⟩
   refine ⟨⟨kwok_ex, ⟨rfl, fun _ => kwbare_ex⟩, trivial⟩, ?_⟩
-  exact ⟨⟨kwok_units, Or.inr (Or.inr ⟨rfl, by decide, by decide⟩), trivial⟩, trivial⟩
+  exact ⟨⟨kwok_units, Or.inr (Or.inr ⟨rfl, by decide⟩), trivial⟩, trivial⟩
 
 example : ∃ ind', parseStmt.parseChildren 10 4 1 (10 :: (printStmts true 1 exampleTree ++ (spaces 0 ++ 125 :: [10]))) =
     .ok (exampleTree, ind', 0, [10]) :=
